@@ -17,7 +17,7 @@ OP_OWNER = {
     "wf": ["C10"], "callbacks": ["C10"],
     "sortadv": ["C03"], "conc": ["C11"], "grpadv": ["C04", "C05"],
     "ryu": ["C16"], "ryudec": ["C16"],
-    "like": ["C18"], "likefilter": ["C18"],
+    "like": ["C18"], "likefilter": ["C18"], "quote": ["C14"],
     "tosql": ["C19"], "sqlread": ["C19"], "sqlfault": ["C15"], "sqlreadfault": ["C15"],
     "csvraw": ["C12"], "csvread": ["C12"],
     "csvfault": ["C15"], "csvreadfault": ["C15"],
@@ -44,14 +44,16 @@ PROPS = {
     "C02": {"lean": ["QF.Props.C02"],
             "sections": [hist("hist", ["filter"]),
                          {"section": "hist", "tag": "hist-filter", "opt": "ops=filter+filter+filter+filter+sort+slice+distinct", "quick": 400, "thorough": 4000, "cover_ops": {"filter"}}]},
-    "C03": {"lean": ["QF.Props.C03"],
+    "C03": {"lean": ["QF.Props.C03", "QF.Props.C03Spec"],
             "sections": [hist("hist", ["sort"]),
                          {"section": "sortadv", "quick": 300, "thorough": 3000, "cover_ops": {"SA"}}]},
     "C04": {"lean": ["QF.Props.C04"],
             "sections": [hist("hist", ["groupagg", "groupframes"]),
                          {"section": "grpadv", "quick": 600, "thorough": 6000, "cover_ops": {"GA"}}]},
     "C05": {"lean": ["QF.Props.C05", "QF.Props.C05Distinct", "QF.Props.C04"], "extra_ns": ["QF.Props.C04"], "sections": [hist("hist", ["distinct"])]},
-    "C06": {"lean": ["QF.Props.C06"], "sections": [hist("hist", ["apply", "fapply", "rownums"])]},
+    "C06": {"lean": ["QF.Props.C06", "QF.Props.C06Apply"],
+            "sections": [{"section": "hist", "tag": "hist-wit", "opt": "wit=1", "quick": 1, "thorough": 1, "cover_ops": {"fapply"}},
+                         hist("hist", ["apply", "fapply", "rownums"])]},
     "C07": {"lean": ["QF.Props.C07", "QF.Props.C06"], "extra_ns": ["QF.Props.C06"], "sections": [hist("hist", ["eval"])]},
     "C08": {"lean": ["QF.Props.C08"],
             "sections": [hist("hist", ["select", "drop", "slice", "copy"], cover=["new", "select", "drop", "slice", "copy"]),
@@ -64,7 +66,8 @@ PROPS = {
                     "started together on one frame family, each batch three times, in a binary built with the race detector; every result is compared with the result of the same operation run alone",
             "open_goals": ["the Go memory model is not modelled: absence of races in the real code is observed by the race detector on the explored schedules, not proved"]},
     "C12": {"lean": ["QF.Props.C12"],
-            "sections": [{"section": "csvraw", "quick": 300, "thorough": 3000, "cover_ops": {"C"}},
+            "sections": [{"section": "csvraw", "tag": "csvraw-wit", "opt": "wit=1", "quick": 1, "thorough": 1, "cover_ops": {"C"}},
+                         {"section": "csvraw", "quick": 300, "thorough": 3000, "cover_ops": {"C"}},
                          {"section": "csvread", "quick": 300, "thorough": 3000, "cover_ops": {"CV"}}],
             "rule": "cases = (document, read schedule) pairs read by the real fastcsv reader / ReadCSV and replayed through the L0 mirror (exact rows, errors, stale bytes) "
                     "and the RFC 4180 scanner (what the document denotes); distinct by transcript line; every generated document has quotes, delimiters or line breaks in cells with probability > 1/2"},
@@ -78,8 +81,9 @@ PROPS = {
             "sections": [dict(hist("hist", ["tocsv", "tocsv", "sort", "filter", "apply"], quick=250), cover_ops={"tocsv"})],
             "rule": "cases = ToCSV of a derived frame with random Header/Columns options; the bytes are parsed with the spec's RFC 4180 scanner and must denote the frame cell by cell "
                     "(floats: the text must parse back to the identical bits by exact arithmetic), then ReadCSV of those bytes with the types declared must give the expected frame (both EmptyNull settings)"},
-    "C14": {"lean": ["QF.Props.C14", "QF.Props.C16"], "extra_ns": ["QF.Props.C16"],
-            "sections": [dict(hist("hist", ["tojson", "tojson", "sort", "filter", "apply"], quick=250), cover_ops={"tojson"})],
+    "C14": {"lean": ["QF.Props.C14", "QF.Props.C14Quote", "QF.Props.C16"], "extra_ns": ["QF.Props.C16"],
+            "sections": [dict(hist("hist", ["tojson", "tojson", "sort", "filter", "apply"], quick=250), cover_ops={"tojson"}),
+                         {"section": "quote", "quick": 300, "thorough": 5000, "cover_ops": {"QS"}}],
             "rule": "cases = ToJSON of a derived frame; the bytes are parsed with the spec's RFC 8259 parser (validity) and every record must denote its row (ints exactly, floats parsing back to identical bits, "
                     "NaN/null as null, strings and names decoded with invalid bytes as U+FFFD); ReadJSON of the bytes must reproduce the frame where the property promises it"},
     "C17": {"lean": ["QF.Props.C17"],
@@ -136,7 +140,7 @@ LEVEL_TEXT = {
                "The writer (encoding/csv) is not modelled: its output is judged by what it denotes. A theorem scan(render(row)) = row for every quoting choice is an open goal."),
     "C14": _lt("ToJSON output of the real code is parsed by the spec's RFC 8259 parser (validity) and must denote the frame record by record; ReadJSON must invert it. Number tokens are judged by exact decimal-to-float arithmetic in Lean.",
                "Lean 4 executable RFC 8259 / exact float semantics as oracle + formatter lemma of C16",
-               "No refinement theorem for AppendQuotedString yet (open goal); encoding/json is trusted for ReadJSON's decoding."),
+               "quoted_parses: the mirror of AppendQuotedString yields, for every byte string, a token that the RFC 8259 string parser decodes to the string with invalid bytes as U+FFFD; the mirror is compared byte for byte with the real function. encoding/json is trusted for ReadJSON's decoding."),
     "C16": _lt("layoutInt_spec: the integer layout of appendF writes old content ++ digits ++ zeros for every buffer state (any stale spare capacity). Every output of the real formatter on generated floats and buffer states is checked in Lean against the definition of shortest round-trip text (exact natural-number arithmetic: parses back to the identical bits under correct rounding, no shorter decimal does, closest of that length) and against strconv.FormatFloat.",
                "Lean 4 proof (formatter layout) + executable Lean definition of shortest round trip as differential oracle",
                "PARTIAL: the claim for all 2^64 floats rests on Ryu's precision lemma, which is not proved here; the digit-generation core is validated by differential runs only (labelled as tests)."),
